@@ -8,3 +8,4 @@ import SplinkVerif.Model.ArithNum
 import SplinkVerif.Generated.Arith
 import SplinkVerif.Model.BlockingAnalysis
 import SplinkVerif.Model.EM
+import SplinkVerif.Model.Estimators
